@@ -18,7 +18,10 @@ class MessageHead(packet.Packet):
         formats.remove_padding(self)
 
         if not self.payload:
-            raise formats.VerifyError('Message without payload')
+            # A message type with no fields is complete with just its header
+            cls = self.guess_payload_class(b'')
+            if not (issubclass(cls, formats.NoPayloadPacket) and not cls.fields_desc):
+                raise formats.VerifyError('Message without payload')
         if isinstance(self.payload, packet.Raw):
             raise formats.VerifyError('Message with improper payload')
 
